@@ -67,7 +67,14 @@ def _ops(nr, nc, ds, rng):
     outl = np.array(rng.sample(valid, min(3, len(valid))))
     ids = np.arange(5, 5 + outl.size, dtype=np.uint32)
     cs = rng.choice([2, 3])
+    upa0 = R([rng.randint(0, 2) for _ in range(n)]).astype(np.float64)       # zeros: the threshold of main_upstream
     ops = [
+        ("main_upstream_zero", lambda f: f.main_upstream(uparea=upa0)),
+        ("main_upstream_acc0", lambda f: f.main_upstream(uparea=f.upstream_area() - 1)),
+        ("classic_zero", lambda f: f.stream_order(type="classic", mask=upa0 > 0)),
+        ("moving_average3", lambda f: f.moving_average(full, 3)), ("moving_median2", lambda f: f.moving_median(full, 2)),
+        ("subbasins_area_zero", lambda f: f.subbasins_area(2, uparea=upa0 + 1)),
+        ("vector_zero_area", lambda f: _vector(f, upa0)),
         ("idxs_seq_walk", lambda f: (f.order_cells("walk"), sorted(int(x) for x in f.idxs_seq))[1]),
         ("idxs_seq_sort", lambda f: (f.order_cells("sort"), sorted(int(x) for x in f.idxs_seq))[1]),
         ("rank", lambda f: f.rank), ("isvalid", lambda f: f.isvalid), ("idxs_pit", lambda f: f.idxs_pit), ("nnodes", lambda f: f.nnodes),
@@ -101,6 +108,13 @@ def _ops(nr, nc, ds, rng):
         ("add_pits", lambda f: (f.add_pits(idxs=outl[:1]), f.idxs_ds.copy(), f.idxs_pit, f.rank)[1:]),
     ]
     return ops
+
+
+def _vector(f, upa0):
+    """the 1-D class on the same network and index type, with zero-area nodes"""
+    from pyflwdir.flwdir import Flwdir
+    v = Flwdir(f.idxs_ds.copy(), area=upa0.ravel().astype(np.float32))
+    return (v.idxs_us_main, v.stream_order(type="classic"), v.upstream_area(), v.rank, v.path(idxs=v.idxs_pit[:1], direction="up")[0])
 
 
 def _ucat(f, cs, method, elv):
